@@ -162,7 +162,7 @@ class MultiTanStage(object):
 
     def _run(self, parallel, rec, env_dir):
         from toasty.multi_tan import MultiTanProcessor
-        coll = collection.load(self.col.paths)
+        coll = fitsgen.load_collection(self.col)
         pio = RecordingPIO(os.path.join(env_dir, "out"), default_format=self.fmt)
         pio._rec = rec
         b = Builder(pio)
@@ -279,7 +279,7 @@ class MultiWcsStage(object):
 
     def _run2(self, parallel, rec, env_dir):
         from toasty.multi_wcs import MultiWcsProcessor
-        coll = collection.load(self.col.paths)
+        coll = fitsgen.load_collection(self.col)
         pio = RecordingPIO(os.path.join(env_dir, "out"), default_format=self.fmt)
         pio._rec = rec
         b = Builder(pio)
